@@ -47,7 +47,7 @@ fn case<S: Shape>(r: &mut Rng, acc: &mut Acc, index: u64) {
     for ci in 0..n_comp {
         let mut s = gen_tl(r, kinds, &GenOpts { min_kf: 1, ..GenOpts::default() });
         if r.chance(1, 6) {
-            s.repeat = *r.pick(&[Rep::Times(u32::MAX - 1), Rep::Times(1 << 20), Rep::Infinite, Rep::Times(7)]);
+            s.repeat = *r.pick(&[Rep::Times(u32::MAX), Rep::Times(u32::MAX - 1), Rep::Times(1 << 20), Rep::Infinite, Rep::Times(7)]);
         }
         if r.chance(1, 3) && ci > 0 {
             // same cycle as the first component now and then
